@@ -20,6 +20,7 @@ def check(ctx):
     G.prim_syn_table(ctx, "C01.1", strict_root=False)
     G.resolver_arms(ctx, "C01.3")
     G.resolver_entry_flags(ctx, "C01.11")
+    G.param_match_predicate(ctx, "C01.11")      # a position is rendered as a parameter only if its id IS that parameter's id (else e.g. Compact<T> loses its wrapper)
     G.cow_unwrap(ctx, "C01.12")
     G.syn_arms(ctx, "C01.13", strict_alloc=False)
     G.prelude_table(ctx, "C01.21", strict_root=False)
